@@ -1,7 +1,7 @@
 """C10 -- compile-time evaluation agrees with run time (structural clauses)."""
 import re
 
-from rules import hirq, mirq
+from rules import hirq, mirq, visit
 from rules.core import walk, norm_path, AnchorMissing
 
 LEVEL = "other"
@@ -19,7 +19,8 @@ EXPLANATION = (
     "(slice header length) and rejects everything else with NotAnArrayWithLength; R5 word size check: "
     "aligned_size_in_bytes <= declared size else WordSizeMismatch (E380); R6 |:T|: the generator's SizeOf arm computes "
     "the constant from Generator::size_in_bits (LLVMSizeOfTypeInBits on the module's own data layout) of the lowered "
-    "type, divided by 8, consults no other size table, and |:bool| = 1 is the only special case.")
+    "type, divided by 8, consults no other size table, and |:bool| = 1 is the only special case; R7 the constness analyzer "
+    "visits every sub-expression of a constant initialiser or rejects the whole expression (function calls, |x|).")
 
 VT = "alpha::value_type::ValueType::"
 
@@ -250,6 +251,41 @@ def r6_sizeof(run, F):
            "size_in_bits asks the module's own data layout (the one the emitted IR carries): %s" % cs)
 
 
+def r7_constness_visit(run, F):
+    """T2: the constness analyzer reaches every sub-expression of a constant's initialiser; an arm either traverses its
+    children or rejects the whole expression (function calls and |x| are not compile-time constants)."""
+    C = F.lib
+    rel = visit.type_closure(C, {"alpha::common::Expression"})
+    TR = "alpha::analyzer::constness::Analyzable"
+    impls = [b for b in C.bodies.values() if b.get("impl_trait") == TR and "{closure" not in b["npath"]]
+    run.require(len(impls) >= 4, "constness Analyzable impls not found (%d)" % len(impls))
+
+    def is_trav(c):
+        return c.endswith("analyzer::constness::Analyzable>::analyze") or c == TR + "::analyze"
+
+    def whole_reject(arm):
+        body = hirq.unwrap_trivial(arm["body"])
+        cons = [hirq.short(p) for p, _ in hirq.constructs(body)]
+        branches = [x for x in walk(body) if x.get("k") in ("If", "Match")]
+        return "Poison::Error" in cons and any(c.startswith("Error::") for c in cons) and not branches
+    exceptions = {"Declaration::Function.body": "constness is a property of constant initialisers; function bodies are not compile-time evaluated"}
+    n = 0
+    for b in impls:
+        def rep(key, ok, where, detail, sample):
+            run.ob("R7-CONSTNESS-VISITS", key, ok, where, detail + ": a function call or |x| inside it would reach LLVM constant folding unchecked (E430/E431)", sample)
+        n += visit.check_impl(F, C, b, rel, is_trav, rep, exceptions=exceptions, whole_reject=whole_reject)
+    run.require(n >= 15, "too few visit obligations (%d)" % n)
+    # the two rejected forms stay rejected
+    eb = [b for b in impls if norm_path(b.get("impl_self") or "") == "alpha::common::Expression"]
+    run.require(len(eb) == 1, "constness: impl for Expression not found")
+    m = hirq.find_match(eb[0], min_arms=10)
+    for variant, err in (("FunctionCall", "Error::FunctionInConstContext"), ("LengthOfArray", "Error::UnsupportedInConstContext")):
+        arm = hirq.arm_for(m, "Expression::" + variant)
+        cons = [hirq.short(p) for a in arm for p, _ in hirq.constructs(a["body"])]
+        run.ob("R7-CONSTNESS-VISITS", "rejects " + variant, bool(arm) and err in cons and all(whole_reject(a) for a in arm), F.where(eb[0], arm[0] if arm else None),
+               "%s in a constant initialiser is rejected with %s" % (variant, err.split("::")[-1]))
+
+
 def check(run):
     F = run.facts("B")
     r1_sizes(run, F)
@@ -258,3 +294,4 @@ def check(run):
     r4_length_of(run, F)
     r5_word_size(run, F)
     r6_sizeof(run, F)
+    r7_constness_visit(run, F)
